@@ -332,9 +332,17 @@ class WARCRecorder(object):
 
         journal_filename = self._warc_filename + '-wpullinc'
 
-        with open(journal_filename, 'w') as file:
-            file.write('wpull-journal-version:1\n')
-            file.write('offset:{}\n'.format(before_offset))
+        try:
+            with open(journal_filename, 'w') as file:
+                file.write('wpull-journal-version:1\n')
+                file.write('offset:{}\n'.format(before_offset))
+        except (OSError, IOError):
+            # Nothing has been appended yet: do not leave a journal behind
+            # that would make the next run refuse to start.
+            if os.path.exists(journal_filename):
+                os.remove(journal_filename)
+
+            raise
 
         try:
             with open_func(self._warc_filename, mode='ab') as out_file:
